@@ -63,7 +63,7 @@ def writeBigBedZ (o : Opts) (z : Blobs) (autosql : List Nat) (fieldCount : Nat) 
   let summaryOff := autosqlOff + autosql.length + 1
   let fullDataOff := summaryOff + 40
   let preData := fullDataOff + 8
-  let dataSecs0 := input.zipIdx.flatMap fun (c, id) => cutBedSections o.itemsPerSlot id (c.2.2.length + 1) c.2.2
+  let dataSecs0 := input.zipIdx.flatMap fun (c, id) => cutBedSections (min o.itemsPerSlot 65535) id (c.2.2.length + 1) c.2.2   -- a section's item count is 16 bits wide (D22)
   let (dataSecs, z1, ok1) := substBlobs z dataSecs0
   let (dataLeaves, dataEnd) := leavesOf dataSecs preData
   let dataBytes := dataSecs.flatMap (·.bytes)
